@@ -26,7 +26,7 @@ structure St where
   exact : Bool := true
   blocked : Bool := false
   wblocked : Bool := false       -- a server write is stuck behind the blocked client
-  ackPending : Bool := false     -- needToSendSettingsAck while the write is stuck
+  ackPending : Nat := 0          -- needToSendSettingsAck (a counter) while the write is stuck
   heldNow : List Out := []       -- written into the server's buffer before the flush blocked
   heldQ : List Out := []         -- queued in the write scheduler behind the stuck write
 
@@ -224,14 +224,14 @@ def applyIn (st : St) (i : In) : St × List Out :=
       if st.wblocked then ({ st with heldQ := st.heldQ ++ [.pingAck d] }, [])
       else ({ st with heldNow := st.heldNow ++ [.pingAck d], wblocked := true }, [])
     | .settings 0 =>
-      if st.wblocked then ({ st with ackPending := true }, [])
+      if st.wblocked then ({ st with ackPending := st.ackPending + 1 }, [])
       else ({ st with heldNow := st.heldNow ++ [.settingsAck], wblocked := true }, [])
     | .pingAck => (st, [])
     | _ => ({ st with exact := false }, [])
 
 def release (st : St) : St × List Out :=
-  let o := st.heldNow ++ (if st.ackPending then [Out.settingsAck] else []) ++ st.heldQ
-  ({ st with blocked := false, wblocked := false, ackPending := false, heldNow := [], heldQ := [] }, o)
+  let o := st.heldNow ++ List.replicate st.ackPending Out.settingsAck ++ st.heldQ
+  ({ st with blocked := false, wblocked := false, ackPending := 0, heldNow := [], heldQ := [] }, o)
 
 structure Walk where
   st : St
